@@ -111,7 +111,7 @@ SeedsStruct4s == {
    << <<KAddNode,1,0,1,0>>, <<KAddNode,2,1,1,0>>, <<KAddNode,3,2,1,0>> >>,
    << <<KAddNode,1,0,1,0>>, <<KAddNode,3,2,1,0>> >>,
    << <<KAddNode,1,0,1,0>>, <<KAddNode,2,1,2,0>>, <<KAddNode,3,0,3,0>>, <<KAddNode,4,1,3,0>> >> }
-\* 5 nodes, 4 frames: two divisions in one lineage; a division below a chain with a grandchild below the
+\* 5 nodes, 4 frames: two divisions in one lineage; a division with a skip-edge arm; a division below a chain with a grandchild below the
 \* first daughter; a 4-frame chain; a chain with two skip edges
 SeedsStruct5s == {
    << <<KAddNode,1,0,1,0>>, <<KAddNode,2,1,1,0>>, <<KAddNode,3,1,2,0>>, <<KAddEdge,1,3,0,0>>,
@@ -119,7 +119,9 @@ SeedsStruct5s == {
    << <<KAddNode,1,0,1,0>>, <<KAddNode,2,1,1,0>>, <<KAddNode,3,2,1,0>>, <<KAddNode,4,2,2,0>>, <<KAddEdge,2,4,0,0>>,
       <<KAddNode,5,3,3,0>> >>,
    << <<KAddNode,1,0,1,0>>, <<KAddNode,2,1,1,0>>, <<KAddNode,3,2,1,0>>, <<KAddNode,4,3,1,0>> >>,
-   << <<KAddNode,1,0,1,0>>, <<KAddNode,3,2,1,0>>, <<KAddNode,2,0,2,0>>, <<KAddNode,4,3,2,0>> >> }
+   << <<KAddNode,1,0,1,0>>, <<KAddNode,3,2,1,0>>, <<KAddNode,2,0,2,0>>, <<KAddNode,4,3,2,0>> >>,
+   \* a division whose second arm is a skip edge: 1@0 -> 2@1 and 1@0 -> 3@3
+   << <<KAddNode,1,0,1,0>>, <<KAddNode,2,1,1,0>>, <<KAddNode,3,3,2,0>>, <<KAddEdge,1,3,0,0>> >> }
 \* 6 labels, 5 of them used by a lineage with two divisions (1 -> {2, 3}, 2 -> {4, 5}) on 1x3 frames
 SeedsSeg6s == {
    << <<KPaint,0,3,1,2>>, <<KPaint,1,1,2,2>>, <<KPaint,1,4,3,4>>, <<KAddEdge,1,3,0,0>>,
